@@ -127,19 +127,22 @@ REGISTRY = {
         'not_decided': ['liveness ("keeps processing until stop")', 'stop() from a second thread'],
     },
     'C09': {
-        'modules': ['contracts.core_timers', 'contracts.pollers'], 'level': 'proof',
+        'modules': ['contracts.core_timers', 'contracts.pollers', 'contracts.pollers_wake'], 'level': 'proof',
         'level_text': 'Over real-valued time with a non-decreasing clock: a Timer visit fires iff now >= expiry and no unregistration is '
                       'pending, re-arms a persistent timer to now\' + interval (consecutive firings an interval apart), otherwise cuts the '
-                      'idle wait to expiry - now; reduce_time_left only lowers; the fallback generator blocks for at most time_left; '
-                      'decorator priorities put every timer before any blocking handler (with C02).',
-        'level_note': 'trusted: time.time non-decreasing, floats as reals, mktime/timetuple, threading.Event; pollers pass time_left '
-                      'to the kernel (structural fact); C07 for the one-shot unregistration.',
+                      'idle wait to expiry - now; reduce_time_left only lowers; the fallback generator AND the kernel wait of each poller '
+                      '(Select/Poll/EPoll._generate_events) block for at most time_left, untimed only when nothing is pending; the poller stops '
+                      'the event so that no second blocker runs; decorator priorities put every timer before any blocking handler (with C02).',
+        'level_note': 'trusted: time.time non-decreasing, floats as reals, mktime/timetuple, threading.Event, select/poll/epoll block at most '
+                      'the time given; C07 for the one-shot unregistration.',
         'explanation': 'timer contracts discharged by z3',
     },
     'C03': {
-        'modules': ['contracts.core_timers', 'contracts.core_dispatch', 'contracts.pollers'], 'level': 'other',
+        'modules': ['contracts.core_timers', 'contracts.core_dispatch', 'contracts.pollers', 'contracts.pollers_wake'], 'level': 'other',
         'level_text': 'PARTIAL: only the four sequential mechanisms of the wake-up hand-shake are proved as post-conditions (foreign-thread '
-                      'branch of _fire, arming block of the dispatcher, reduce_time_left -> resume, clear-before-wait and timeout reads). '
+                      'branch of _fire, arming block of the dispatcher, reduce_time_left -> resume, clear-before-wait and timeout reads), '
+                      'since round 5 including the poller halves as contracts: BasePoller.resume writes the control pipe on EVERY call, the kernel '
+                      'wait of Select/Poll/EPoll is the event\'s time_left, the control pipe is part of what the kernel watches. '
                       'That they compose to "nothing lost, loop always wakes" under every interleaving is NOT decided by sequential contracts.',
         'level_note': 'sequential reasoning only; the interleaving quantifier of the property is out of reach of this technique family '
                       '(would need interference-freedom of unlocked writes = protocol model checking).',
@@ -236,6 +239,6 @@ REGISTRY = {
         'level_note': 'trusted: correspondence between the Lean step and the loop body; unicode_escape/urlsplit/regex grammar opaque; '
                       'web/http.py and protocols/http.py callers use the parser through its contract (C14).',
         'explanation': 'parser stash-discipline contracts discharged by z3/cvc5 + Lean lemma; grammar bounded',
-        'not_decided': ['request-line/header grammar (opaque functions; bounded stand-in)', 'client-side read-until-close bodies', 'content-encoding'],
+        'not_decided': ['request-line/header grammar (opaque functions; bounded stand-in)', 'client-side read-until-close bodies (HTTP._on_client_read itself is under contract since round 5)', 'content-encoding'],
     },
 }
